@@ -227,6 +227,7 @@ func crashExplore(r *core.Run, tr *core.Trace, env *fenv.Env, b crashBudget) (ou
 
 // CheckC01: crash atomicity and durability.
 func CheckC01(r *core.Run) {
+	defer exploreTx(r)()
 	r.Rule = "random histories on the simulated disk; (a) TLC evaluates CrashSafe (all subsets of un-synced writes, torn header) on the decoded real I/O after every write/sync; (b) at every I/O boundary crash images are enumerated (all subsets up to the tier bound, else none/all/each single lost/each single kept/random; byte tears of the header write), each is opened by the real code and the recovered logical state is judged by TxTrace.tla!Recovered against committed/in-flight; (c) a sample of recovered files runs a further transaction + reopen, judged as a trace of its own; distinct = distinct (history, crash point, recovered state) triples"
 	n := r.Pick(14, 80)
 	cfgs := baseCfgs(r, "c01", n, func(i int, c *HistCfg) {
